@@ -162,6 +162,10 @@ func (a Tuple) M__eq__(other Object) (Object, error) {
 	if len(a) != len(b) {
 		return False, nil
 	}
+	if err := compareEnter(); err != nil {
+		return nil, err
+	}
+	defer compareLeave()
 	for i := range a {
 		eq, err := Eq(a[i], b[i])
 		if err != nil {
@@ -182,6 +186,10 @@ func (a Tuple) M__ne__(other Object) (Object, error) {
 	if len(a) != len(b) {
 		return True, nil
 	}
+	if err := compareEnter(); err != nil {
+		return nil, err
+	}
+	defer compareLeave()
 	for i := range a {
 		eq, err := Eq(a[i], b[i])
 		if err != nil {
